@@ -21,7 +21,11 @@ RULES = {
     "C01.R5d": lambda ctx: bldrules.sections_sorted(ctx, "C01.R5d"),
     "C01.R1b": lambda ctx: encrules.serde_symmetry(ctx, "C01.R1b"),
     "C01.R0": lambda ctx: __import__("rules.foundations", fromlist=["x"]).accessors(ctx, "C01.R0", None),
+    "C01.R5h": lambda ctx: encrules.version(ctx, "C01.R5h"),
     "C01.R6": lambda ctx: encrules.only_duplicates_skipped(ctx, "C01.R6"),
+    "C01.R9a": lambda ctx: __import__("rules.hdrrules", fromlist=["x"]).stream_expected(ctx, "C01.R9a") and None,
+    "C01.R9b": lambda ctx: __import__("rules.hdrrules", fromlist=["x"]).chunk_independence(ctx, "C01.R9b"),
+    "C01.R9c": lambda ctx: __import__("rules.hdrrules", fromlist=["x"]).convergence(ctx, "C01.R9c"),
     "C01.R7": lambda ctx: bldrules.cache_coherence(ctx, "C01.R7"),
     "C01.R8": lambda ctx: __import__("rules.vlqrules", fromlist=["x"]).reader_shape(ctx, "C01.R8"),
     "C01.R8w": lambda ctx: __import__("rules.vlqrules", fromlist=["x"]).writer_shape(ctx, "C01.R8w"),
